@@ -306,6 +306,11 @@ class UnitBuild:
         for ex in u.get("extract", []):
             text = extract_functions(os.path.join(REPO, ex["file"]), ex["functions"], ex.get("preamble", "includes"))
             for rw in ex.get("rewrites", []):
+                if "regex" in rw:       # syntactic pattern (robust against harmless edits of the surrounding text)
+                    text, n = re.subn(rw["regex"], rw["to"], text)
+                    if n < 1:
+                        raise Undecided("extract rewrite must-fire failed in %s: /%s/" % (ex["file"], rw["regex"][:60]))
+                    continue
                 if text.count(rw["from"]) < 1:
                     raise Undecided("extract rewrite must-fire failed in %s: %r" % (ex["file"], rw["from"][:60]))
                 text = text.replace(rw["from"], rw["to"])
